@@ -93,12 +93,29 @@ def run_check(pid: str, tier: str, seed: int, nshards: int) -> int:
             procs.append((p, out, err))
         hard = t0 + budget["seconds"] * 2.0 + 120
         dead_shards = []
+        failfast = bool(os.environ.get("VERIF_FAILFAST"))  # mutation campaigns only: stop at the first violation
+        stopped = False
+        while failfast and any(p.poll() is None for p, _, _ in procs) and time.time() < hard:
+            time.sleep(0.5)
+            for p, out, err in procs:
+                try:
+                    if os.path.exists(out) and '"verdict": "violation"' in open(out).read():
+                        stopped = True
+                except OSError:
+                    pass
+            if stopped:
+                for p, _, _ in procs:
+                    if p.poll() is None:
+                        p.kill()
+                break
         for sh, (p, out, err) in enumerate(procs):
             try:
                 rc = p.wait(timeout=max(1.0, hard - time.time()))
             except subprocess.TimeoutExpired:
                 p.kill()
                 rc = -9
+            if stopped:
+                continue
             if rc != 0:
                 tail = ""
                 try:
